@@ -38,6 +38,11 @@ std::vector<ComponentPtr>::const_iterator ComponentEntity::ComponentEntityImpl::
 
 std::vector<ComponentPtr>::const_iterator ComponentEntity::ComponentEntityImpl::findComponent(const ComponentPtr &component) const
 {
+    // A component that is a child is found as itself; otherwise fall back to a structurally equal child.
+    auto result = std::find(mComponents.begin(), mComponents.end(), component);
+    if (result != mComponents.end()) {
+        return result;
+    }
     return std::find_if(mComponents.begin(), mComponents.end(),
                         [=](const ComponentPtr &c) -> bool { return c->equals(component); });
 }
@@ -107,7 +112,7 @@ bool ComponentEntity::removeComponent(const ComponentPtr &component, bool search
     bool status = false;
     auto result = pFunc()->findComponent(component);
     if (result != pFunc()->mComponents.end()) {
-        component->pFunc()->removeParent();
+        (*result)->pFunc()->removeParent();
         pFunc()->mComponents.erase(result);
         status = true;
     } else if (searchEncapsulated) {
